@@ -96,7 +96,7 @@ def tblOf (idx dl tab : String) : TrieWalk.Tbl String :=
   { recs := TrieWalk.parseIndex (unhex idx), dataLen := natOf dl,
     leaf := fun db de => ((lt.find? (fun e => e.1 == (db, de))).map (·.2)).getD [] }
 
-def walkFuel : Nat := 2000000
+def walkFuel : Nat := 4000
 
 def stdPred (n syl : Nat) : Bool := n == syl
 /-- `FuzzyPartialPrefix`: `n != 0 && Syllable::try_from(n).starts_with(syl)` -/
